@@ -5,12 +5,13 @@
 import Chrono.Model.ParsedResolve
 import Chrono.Spec.ParsedSpec
 import Chrono.Proofs.PrimL
-namespace Chrono.Proofs
-open Chrono Chrono.M Chrono.Spec Chrono.Extracted
+namespace Chrono.Proofs.ParsedRes
+open Chrono Chrono.M Chrono.Spec Chrono.Spec.Fields Chrono.Extracted
 
 /-- decidable equality of `ParseResult` values (core `Except` has none), so that closed instances
-of the resolver can be evaluated by `decide +kernel` in the non-vacuity examples -/
-instance exceptDecEqC14 {ε α} [DecidableEq ε] [DecidableEq α] : DecidableEq (Except ε α) := fun a b =>
+of the resolver can be evaluated by `decide +kernel` in the non-vacuity examples (used as a
+`local instance` in Props/C14.lean only) -/
+@[reducible] def exceptDecEq {ε α} [DecidableEq ε] [DecidableEq α] : DecidableEq (Except ε α) := fun a b =>
   match a, b with
   | .ok x, .ok y => if h : x = y then isTrue (by rw [h]) else isFalse (fun e => h (Except.ok.inj e))
   | .error x, .error y =>
@@ -449,4 +450,4 @@ theorem time_err' (p : Parsed) (e : PErr) (h : Parsed.to_naive_time p = .error e
       · cases h; left; rename_i hsn; exact ⟨rfl, fun hs => hsn (hs.2.2.2 (by simp))⟩
     · cases h; right; refine ⟨rfl, fun hs => ?_⟩; have := hs.2.2.2.2 v rfl; omega
 
-end Chrono.Proofs
+end Chrono.Proofs.ParsedRes
